@@ -347,6 +347,11 @@ def run(ck, facts, tier):
     ck.floor("R15.6", "functions swapping a buffer out of self", n, 2)
     n = fifo_rule(ck, facts, fns)
     ck.floor("R15.7", "functions that fill and drain a buffer of items", n, 2)
+    fx = core.fixture_facts()
+    pr = core.Probe()
+    fifo_rule(pr, fx, [core.fixture_fn("Buffered::pos_lifo_next"), core.fixture_fn("Buffered::neg_fifo_next")])
+    ck.control("R15.7", "Buffered::pos_lifo_next (Vec::push / Vec::pop)", pr.fired(r"pos_lifo_next#lifo-buffer$"))
+    ck.control("R15.7", "Buffered::neg_fifo_next (push_back / pop_front)", pr.fired(r"neg_fifo_next"), expect=False)
     n = writer_rule(ck, facts)
     ck.floor("R15.5", "line-oriented serializer closures", n, 2)
     ck.assumptions = ["position bookkeeping inside rio_turtle/rio_xml/json-ld is not decided",
